@@ -489,6 +489,8 @@ func (s *Server) Clear() {
 	// release first: once the reservation is gone no further DONE can be posted for it
 	s.Release()
 	drainChannel(s.InvokeDoneChan)
+	// an init error cached by an earlier generation must not be reported for failures of later ones
+	s.setCachedInitErrorResponse(nil)
 }
 
 func (s *Server) SendRuntimeReady() error {
